@@ -45,7 +45,7 @@ def one(sid):
 
 
 def main():
-    ids = sys.argv[1:] or sorted(x for x in os.listdir(SEEDED) if os.path.isdir(os.path.join(SEEDED, x)))
+    ids = sys.argv[1:] or sorted(x for x in os.listdir(SEEDED) if os.path.isdir(os.path.join(SEEDED, x)) and not x.startswith('_'))
     head = sh('git -C /repo rev-parse --short HEAD').stdout.strip()
     rows = []
     bad = 0
